@@ -224,6 +224,27 @@ def stray_introducers(check, tier):
                 if d:
                     s.fail("C17.fmtstr.stray_introducer", dict(s=st), d[:300], replay={"kind": "suite", "module": "props.C17", "case": dict(s=st)})
     s.done()
+    # a TRUNCATED sequence (introducer, perhaps some parameters, no final byte) directly in front of a complete one, and ordinary text
+    # behind it that looks like the tail of a sequence: the complete sequence goes, everything else stays - even though what stays then
+    # reads like a sequence ('ESC[' + '31m')
+    truncated = ["\x1b[", "\x1b[3", "\x1b[1;", "\x9b", "\x9b4", "\x1b[\x1b["]
+    seqs2 = seqs + ["\x1b[20m", "\x1b[90m", "\x1b[21m", "\x1b[38;5;100m"]
+    tails = ["31mb", "0m", "2Ay", "m", "z", ";5H", ""]
+    s = Suite(check, "C17.truncated_introducers", f"{len(truncated)} truncated sequences directly in front of {len(seqs2)} complete ones (supported and "
+              f"unsupported SGR, other CSI) followed by {len(tails)} texts that look like sequence tails, alone / after text / twice: no exception, "
+              "only characters removed, and every character that cannot belong to a sequence - the tail behind the complete one in particular - kept", bound=f"{len(truncated) * len(seqs2) * len(tails) * 3} strings")
+    for a in truncated:
+        for q in seqs2:
+            for t in tails:
+                for pieces in ((a, q, t), ("ab", a, q, t, "\n"), (a, q, t, " ", a, q, t)):
+                    st = "".join(pieces)
+                    s.case(st, sample=dict(s=st) if len(s.samples) < 2 else None)
+                    # (a truncated sequence is itself "part of an escape sequence": it may go or stay; what must stay is every character
+                    # that cannot belong to any sequence - in particular the tail behind the complete sequence)
+                    d = judge(st)
+                    if d:
+                        s.fail("C17.fmtstr.truncated_introducer", dict(s=st), d[:300], replay={"kind": "suite", "module": "props.C17", "case": dict(s=st)})
+    s.done()
 
 
 def deductive(check, tier):
